@@ -706,9 +706,13 @@ Qed.
 
 Lemma ex_Dmax : Dmax ex_s Fclip = 1 / 4.
 Proof.
-  unfold Dmax, ex_s, maxl, dev. simpl length.
-  rewrite !Fclip_id by lra. simpl INR.
-  unfold Rmax, Rabs. case_all; lra.
+  apply Rle_antisym.
+  - apply maxl_le; [lra|]. intros i Hi. simpl in Hi.
+    destruct i as [|[|[|i]]]; try lia; unfold dev, ex_s; simpl;
+      rewrite Fclip_id by lra; apply Rmax_lub; apply Rabs_le; lra.
+  - eapply Rle_trans; [|apply (Dmax_ge ex_s Fclip O); simpl; lia].
+    unfold dev, ex_s. simpl. rewrite Fclip_id by lra.
+    eapply Rle_trans; [|apply Rmax_r]. eapply Rle_trans; [|apply Rle_abs]. lra.
 Qed.
 
 Lemma ks_example_direct :
